@@ -803,22 +803,14 @@ Proof.
     destruct (poll_any _ _ _ _ HB Hp) as (HB1 & _ & _ & _ & _ & Run & Fin).
     constructor; [|apply IH, Binv_post_poll, HB1].
     unfold entry_ok; cbn [fst snd observe o_wd o_done o_blocked o_res].
-    repeat split; auto.
-    + destruct (t_done (g_task st)) eqn:Hd.
-      * destruct (Fin eq_refl) as (-> & _). discriminate.
-      * specialize (Run eq_refl). subst r. apply Run.
-    + destruct (t_done (g_task st)) eqn:Hd.
-      * destruct (Fin eq_refl) as (-> & _). discriminate.
-      * specialize (Run eq_refl). subst r. apply Run.
-    + destruct (t_done (g_task st)) eqn:Hd.
-      * destruct (Fin eq_refl) as (-> & _). discriminate.
-      * specialize (Run eq_refl). subst r. apply Run.
-    + destruct (t_done (g_task st)) eqn:Hd.
-      * destruct (Fin eq_refl) as (-> & _). discriminate.
-      * specialize (Run eq_refl). subst r. apply Run.
-    + destruct (t_done (g_task st)) eqn:Hd.
-      * destruct (Fin eq_refl) as (-> & _). discriminate.
-      * specialize (Run eq_refl). subst r. apply Run.
+    split; [exact HB1|]. split; [reflexivity|]. split; [reflexivity|]. split; [reflexivity|].
+    destruct (t_done (g_task st)) eqn:Hd.
+    + destruct (Fin eq_refl) as (-> & _). split; intros; discriminate.
+    + specialize (Run eq_refl). destruct r as [|y|v|]; cbn [poll_out] in Run.
+      * split; [intros; discriminate|]. intros _. split; apply Run.
+      * split; [|intros; discriminate]. intros x0 E. injection E as <-. repeat split; apply Run.
+      * split; intros; discriminate.
+      * destruct Run.
   - rewrite run_full_complete. apply IH, Binv_complete, HB.
 Qed.
 
@@ -927,4 +919,222 @@ Proof.
       * pose proof (b_rest _ _ HB) as Er. rewrite Er in E1. apply (skipn_head _ _ _ _ _ E1).
       * congruence.
       * apply woken_complete_blocked. destruct st as [t []]; exact E3.
+Qed.
+
+(* ---- liveness 1: a disciplined consumer needs at most wake_budget + 2 polls ---- *)
+Lemma run_from_poll : forall st s,
+  run_from st (Poll :: s) =
+  observe (m_woken (g_m st)) (snd (poll_next (pre_poll st))) (fst (poll_next (pre_poll st)))
+  :: run_from (post_poll (fst (poll_next (pre_poll st)))) s.
+Proof. intros. unfold run_from. rewrite run_full_poll. destruct (poll_next (pre_poll st)); reflexivity. Qed.
+
+Lemma run_from_complete : forall st k s, run_from st (Complete k :: s) = run_from (with_m (complete_m k) st) s.
+Proof. reflexivity. Qed.
+
+Lemma PhiS_post_poll : forall st, PhiS (post_poll st) = PhiS st.
+Proof. intros [t [] ret res sterm]. reflexivity. Qed.
+
+Lemma disciplined_bound : forall s p st may,
+  Binv p st -> disciplined may (run_from st s) = true ->
+  (length (run_from st s)
+   <= PhiS st + b2n (m_woken (g_m st)) + b2n may + b2n (negb (t_done (g_task st))))%nat.
+Proof.
+  induction s as [|[|k] s IH]; intros p st may HB Hdis.
+  - simpl. lia.
+  - rewrite run_from_poll in *. destruct (poll_next (pre_poll st)) as [st1 r] eqn:Hp. cbn [fst snd] in *.
+    cbn [disciplined] in Hdis. apply andb_prop in Hdis. destruct Hdis as (Hmay & Hdis).
+    cbn [observe o_wb] in Hmay.
+    destruct (poll_any _ _ _ _ HB Hp) as (HB1 & _ & _ & _ & Hphi & Run & Fin).
+    specialize (IH p (post_poll st1) _ (Binv_post_poll _ _ HB1) Hdis).
+    rewrite PhiS_post_poll in IH.
+    change (m_woken (g_m (post_poll st1))) with false in IH.
+    change (t_done (g_task (post_poll st1))) with (t_done (g_task st1)) in IH.
+    cbn [length]. unfold warrants_next in IH; cbn [observe o_wd o_res] in IH.
+    assert (Hm : (1 <= b2n (m_woken (g_m st)) + b2n may)%nat)
+      by (destruct may, (m_woken (g_m st)); simpl in *; try discriminate; lia).
+    destruct (t_done (g_task st)) eqn:Hd.
+    + destruct (Fin eq_refl) as (-> & ->).
+      change (m_woken (g_m (pre_poll st))) with false in IH.
+      change (t_done (g_task (pre_poll st))) with (t_done (g_task st)) in IH. rewrite Hd in IH.
+      pose proof (PhiS_done _ _ (Binv_pre_poll _ _ HB) Hd) as Z. rewrite Z in IH. simpl in IH. simpl. lia.
+    + specialize (Run eq_refl). destruct r as [|x|v|]; cbn [poll_out] in Run.
+      * destruct Run as (Hd1 & _). rewrite Hd1 in IH. rewrite orb_false_r in IH. simpl in IH |- *. lia.
+      * destruct Run as (Hd1 & _ & W & _). rewrite Hd1, W in IH. rewrite W in Hphi. simpl in IH, Hphi |- *. lia.
+      * destruct Run as (_ & Hd1 & _). rewrite Hd1 in IH. rewrite orb_true_r in IH.
+        pose proof (PhiS_done _ _ HB1 Hd1) as Z. simpl in IH |- *. lia.
+      * destruct Run.
+  - rewrite run_from_complete in *.
+    specialize (IH p _ may (Binv_complete _ _ k HB) Hdis).
+    pose proof (complete_pot _ _ k HB).
+    change (t_done (g_task (with_m (complete_m k) st))) with (t_done (g_task st)) in IH. lia.
+Qed.
+
+Lemma phi_rest_nil : forall ops, phi_rest [] ops = wake_sources ops.
+Proof. induction ops as [|[] ops IH]; simpl; auto. Qed.
+
+Lemma PhiS_init : forall p, PhiS (init p) = wake_budget p.
+Proof.
+  intros p. unfold PhiS, Phi, wake_budget. cbn [init g_task g_m t_rest t_sub t_sent t_selfwoke init_m m_completed m_open b2n].
+  rewrite phi_fresh, phi_rest_nil. reflexivity.
+Qed.
+
+Theorem liveness_bound : forall p s,
+  disciplined true (run p s) = true -> (length (run p s) <= wake_budget p + 2)%nat.
+Proof.
+  intros p s H. pose proof (disciplined_bound s p (init p) true (Binv_init p) H) as B.
+  rewrite PhiS_init in B. unfold run. simpl in B. lia.
+Qed.
+
+(* ---- liveness 2: an idle consumer whose environment has completed every awaited
+        event has seen the completion ---- *)
+Lemma in_skipn : forall (A : Type) (a : A) n l, In a (skipn n l) -> In a l.
+Proof.
+  intros A a n. induction n as [|n IH]; intros l H; [exact H|].
+  destruct l; [exact H|]. right. apply IH, H.
+Qed.
+
+Lemma woken_complete_mono : forall st k, m_woken (g_m st) = true -> m_woken (g_m (with_m (complete_m k) st)) = true.
+Proof.
+  intros [t [q pk sk op rw c wr wk lg] ret res sterm] k H. cbn in H. subst wk.
+  unfold with_m, complete_m; cbn. destruct wr as [j|]; [destruct (j =? k)|]; reflexivity.
+Qed.
+
+Lemma blocked_complete_other : forall st k j, blocked_on st j -> j <> k -> blocked_on (with_m (complete_m k) st) j.
+Proof.
+  intros [t [q pk sk op rw c wr wk lg] ret res sterm] k j (r & E1 & E2 & E3) Hne.
+  cbn [g_task g_m m_completed m_wait_reg] in *. subst wr.
+  apply N.eqb_neq in Hne. exists r. unfold with_m, complete_m.
+  cbn [g_task g_m m_wait_reg]. rewrite Hne. cbn [g_task g_m m_wait_reg m_completed].
+  rewrite ?Hne. repeat split; auto. rewrite mem_cons, Hne, E2. reflexivity.
+Qed.
+
+Lemma progress_running : forall s p st may,
+  Binv p st -> t_done (g_task st) = false ->
+  (may = false -> m_woken (g_m st) = true \/ exists k, blocked_on st k) ->
+  (forall k, In (Wait k) (t_rest (g_task st)) -> In (Complete k) s \/ mem k (m_completed (g_m st)) = true) ->
+  idle_end st may s -> In (RComplete (p_ret p)) (results (run_from st s)).
+Proof.
+  induction s as [|[|k] s IH]; intros p st may HB Hd Hinv Hw Hidle.
+  - destruct Hidle as (-> & Hwk). destruct (Hinv eq_refl) as [W|(k & r & E1 & E2 & E3)]; [congruence|].
+    destruct (Hw k) as [[]|M]; [rewrite E1; left; reflexivity|congruence].
+  - cbn [idle_end] in Hidle. change (with_m (fun m => set_log [] (set_woken false m)) st) with (pre_poll st) in Hidle.
+    rewrite run_from_poll. destruct (poll_next (pre_poll st)) as [st1 r] eqn:Hp. cbn [fst snd].
+    change (with_m (set_woken false) st1) with (post_poll st1) in Hidle.
+    destruct (poll_running _ _ _ _ HB Hd Hp) as (HB1 & Hpc & _ & Hcomp & _ & Out).
+    unfold results; cbn [map observe o_res].
+    assert (Hw1 : forall k, In (Wait k) (t_rest (g_task (post_poll st1))) ->
+                    In (Complete k) s \/ mem k (m_completed (g_m (post_poll st1))) = true).
+    { intros k Hk. change (t_rest (g_task (post_poll st1))) with (t_rest (g_task st1)) in Hk.
+      rewrite (b_rest _ _ HB1) in Hk.
+      replace (t_pc (g_task st1)) with (t_pc (g_task st) + (t_pc (g_task st1) - t_pc (g_task st)))%nat in Hk by lia.
+      rewrite <- skipn_skipn', <- (b_rest _ _ HB) in Hk. apply in_skipn in Hk.
+      destruct (Hw k Hk) as [[E|I]|M]; [discriminate|left; exact I|right].
+      change (m_completed (g_m (post_poll st1))) with (m_completed (g_m st1)). rewrite Hcomp. exact M. }
+    destruct r as [|x|v|]; cbn [poll_out] in Out.
+    + right. destruct Out as (Hd1 & _ & Wk).
+      refine (IH p (post_poll st1) _ (Binv_post_poll _ _ HB1) Hd1 _ Hw1 Hidle).
+      intros Hm. unfold warrants_next in Hm; cbn [observe o_wd o_res] in Hm. rewrite orb_false_r in Hm.
+      right. destruct Wk as [W|(k & r & E1 & E2 & E3)]; [congruence|].
+      exists k, r. destruct st1 as [t1 [] ? ? ?]; cbn in *. auto.
+    + right. destruct Out as (Hd1 & _ & W & _).
+      refine (IH p (post_poll st1) _ (Binv_post_poll _ _ HB1) Hd1 _ Hw1 Hidle).
+      intros Hm. unfold warrants_next in Hm; cbn [observe o_wd o_res] in Hm. rewrite orb_true_r in Hm. discriminate.
+    + left. destruct Out as (-> & _). reflexivity.
+    + destruct Out.
+  - cbn [idle_end] in Hidle. rewrite run_from_complete.
+    apply (IH p (with_m (complete_m k) st) may (Binv_complete _ _ k HB) Hd); auto.
+    + intros Hm. destruct (Hinv Hm) as [W|(j & B)].
+      * left. apply woken_complete_mono, W.
+      * destruct (N.eq_dec j k) as [->|Hne].
+        -- left. apply woken_complete_blocked. destruct B as (r & _ & _ & E). exact E.
+        -- right. exists j. apply blocked_complete_other; auto.
+    + intros j Hj. change (t_rest (g_task (with_m (complete_m k) st))) with (t_rest (g_task st)) in Hj.
+      assert (Q : m_completed (g_m (with_m (complete_m k) st)) = k :: m_completed (g_m st)).
+      { destruct st as [t [q pk sk op rw c wr wk lg] ? ? ?]. unfold with_m, complete_m; cbn.
+        destruct wr as [j'|]; [destruct (j' =? k)|]; reflexivity. }
+      rewrite Q, mem_cons.
+      destruct (Hw j Hj) as [[E|I]|M].
+      * injection E as ->. right. rewrite N.eqb_refl. reflexivity.
+      * left; exact I.
+      * right. rewrite M. apply orb_true_r.
+Qed.
+
+Theorem liveness_progress : forall p s,
+  idle_end (init p) true s ->
+  (forall k, In (Wait k) (p_ops p) -> In (Complete k) s) ->
+  In (RComplete (p_ret p)) (results (run p s)).
+Proof.
+  intros p s Hidle Hw. apply (progress_running s p (init p) true); auto using Binv_init; discriminate.
+Qed.
+
+(* ---- the executable monitor accepts every run of the model ---- *)
+Lemma consecutive_seq : forall n pc, consecutive (N.of_nat pc) (map N.of_nat (seq pc n)) = true.
+Proof.
+  induction n as [|n IH]; intros pc; [reflexivity|].
+  cbn [seq map consecutive]. rewrite N.eqb_refl. rewrite <- of_nat_S. apply IH.
+Qed.
+
+Lemma is_terminated_running : forall st, t_done (g_task st) = false -> is_terminated st = false.
+Proof. intros st H. unfold is_terminated. rewrite H. reflexivity. Qed.
+
+Lemma is_terminated_done : forall p st, Binv p st -> t_done (g_task st) = true -> is_terminated st = true.
+Proof.
+  intros p st HB H. unfold is_terminated. rewrite H, (b_res _ _ HB), (b_sterm _ _ HB).
+  destruct (b_done _ _ HB H) as (_ & -> & _). reflexivity.
+Qed.
+
+Lemma mon_step_obs : forall p st st1 r wb,
+  Binv p st -> poll_next (pre_poll st) = (st1, r) ->
+  mon_step p (mkMS (pendS st) (N.of_nat (t_pc (g_task st))) (t_done (g_task st))) (observe wb r st1)
+  = Some (mkMS (pendS st1) (N.of_nat (t_pc (g_task st1))) (t_done (g_task st1))).
+Proof.
+  intros p st st1 r wb HB Hp.
+  destruct (poll_any _ _ _ _ HB Hp) as (HB1 & Hpc & Hlog & _ & _ & Run & Fin).
+  unfold mon_step. cbn [observe o_done o_res o_wd o_term o_blocked ms_c ms_rem ms_fin].
+  rewrite Hlog, consecutive_seq. cbn [negb]. rewrite map_length, seq_length.
+  replace (N.of_nat (t_pc (g_task st)) + N.of_nat (t_pc (g_task st1) - t_pc (g_task st)))
+    with (N.of_nat (t_pc (g_task st1))) by lia.
+  pose proof (b_pc _ _ HB1) as Bpc1.
+  replace (N.of_nat (t_pc (g_task st1)) <=? N.of_nat (length (p_ops p))) with true
+    by (symmetry; apply N.leb_le; lia).
+  cbn [negb]. rewrite Nat2N.id.
+  destruct (t_done (g_task st)) eqn:Hd.
+  - destruct (Fin eq_refl) as (-> & ->).
+    change (t_done (g_task (pre_poll st))) with (t_done (g_task st)). rewrite Hd.
+    rewrite (is_terminated_done p _ (Binv_pre_poll _ _ HB) Hd). cbn [andb].
+    unfold pre_poll. rewrite (pendS_with_m st) by (intros []; reflexivity). reflexivity.
+  - specialize (Run eq_refl). destruct r as [|x|v|]; cbn [poll_out] in Run.
+    + destruct Run as (Hd1 & Hpend & Wk). rewrite Hd1, Hpend, (is_terminated_running _ Hd1). cbn [orb].
+      destruct Wk as [W|(k & r & E1 & E2 & E3)].
+      * rewrite W. reflexivity.
+      * rewrite E3. rewrite (b_rest _ _ HB1) in E1. rewrite (skipn_head _ _ _ _ _ E1).
+        cbn [is_wait]. rewrite N.eqb_refl, orb_true_r. reflexivity.
+    + destruct Run as (Hd1 & Hpend & W & _). rewrite Hd1, Hpend, W, (is_terminated_running _ Hd1).
+      rewrite !N.eqb_refl. reflexivity.
+    + destruct Run as (-> & Hd1 & Hpend). rewrite Hd1, Hpend, (is_terminated_done p _ HB1 Hd1).
+      destruct (b_done _ _ HB1 Hd1) as (E & Ho & _). rewrite E, !N.eqb_refl. cbn [negb andb].
+      unfold pendS. rewrite Ho. reflexivity.
+    + destruct Run.
+Qed.
+
+Lemma mon_accepts_from : forall s p st,
+  Binv p st ->
+  mon_run p (mkMS (pendS st) (N.of_nat (t_pc (g_task st))) (t_done (g_task st))) (run_from st s) = true.
+Proof.
+  induction s as [|[|k] s IH]; intros p st HB.
+  - reflexivity.
+  - rewrite run_from_poll. destruct (poll_next (pre_poll st)) as [st1 r] eqn:Hp. cbn [fst snd mon_run].
+    rewrite (mon_step_obs _ _ _ _ _ HB Hp).
+    destruct (poll_any _ _ _ _ HB Hp) as (HB1 & _).
+    specialize (IH p (post_poll st1) (Binv_post_poll _ _ HB1)).
+    rewrite pendS_post_poll in IH. exact IH.
+  - rewrite run_from_complete. specialize (IH p _ (Binv_complete _ _ k HB)).
+    rewrite pendS_complete in IH. exact IH.
+Qed.
+
+Theorem monitor_accepts_model : forall p s, c13_monitor p (run p s) = true.
+Proof.
+  intros p s. unfold c13_monitor, mon_init, run.
+  pose proof (mon_accepts_from s p (init p) (Binv_init p)) as H.
+  change (pendS (init p)) with (pendo 0 true (p_ops p) NotSent 0) in H. rewrite pendo_fresh in H. exact H.
 Qed.
